@@ -52,3 +52,32 @@ Example C10_example :
   run_events 3 0 w [w + 1; 7; 9] = Some ([false; true; false], 9 - 0, []) \/
   exists fs c ds, run_events 3 0 w [w + 1; 7; 9] = Some (fs, c, ds) /\ existsb (fun b => b) fs = true.
 Proof. right. vm_compute. eexists _, _, _. split; reflexivity. Qed.
+
+(** The premise of the counting abstraction, for the model's real programs and arbitrary
+    responses: a write (set / put through a plain or a sharded directory, hence the public
+    Cache::set / put) observes AT MOST one event of the maintenance trigger and exactly one
+    when it succeeds; lookups, touches and the plain temp directory observe none.
+    (Proofs/TriggerOnce.v) *)
+From Kismet Require Import FS.Fs FS.Prog Spec.Wp Ops.Ops Proofs.TriggerOnce.
+Theorem C10_write_observes_one_trigger_event : forall (which : bool) cfg k v n,
+  wp tg_step (if which then cache_set cfg k v else cache_put cfg k v)
+     (fun r n' => (n' <= S n)%nat /\ (forall x, r = Ok x -> n' = S n)) n.
+Proof. exact public_write_observes_one_event. Qed.
+
+Theorem C10_write_observes_one_trigger_event_on_every_run : forall (which : bool) cfg k v w o,
+  let '(r, _, _, tr) := run (if which then cache_set cfg k v else cache_put cfg k v) w o in
+  exists n', mon_run tg_step 0%nat tr = Some n' /\ (n' <= 1)%nat /\ (r = Ok tt -> n' = 1%nat).
+Proof. exact public_write_observes_one_event_run. Qed.
+
+Theorem C10_lookups_and_touches_observe_no_event : forall f k, notrig (f_get f k) /\ notrig (f_touch f k).
+Proof. exact lookups_and_touches_observe_no_event. Qed.
+
+Theorem C10_plain_temp_dir_observes_no_event : forall d, notrig (ensure_temp_dir d).
+Proof. exact plain_temp_dir_observes_no_event. Qed.
+
+Theorem C10_no_event_means_no_count : forall A (p : prog A), notrig p -> forall n, wp tg_step p (fun _ n' => n' = n) n.
+Proof. intros A p. exact (tg_frame p). Qed.
+
+Theorem C10_trigger_monitor_meaning : forall n w b c r t,
+  tg_step n (EvTrigger w b) = Some (S n) /\ tg_step n (EvCall c r) = Some n /\ tg_step n (EvNow t) = Some n.
+Proof. exact tg_monitor_meaning. Qed.
